@@ -203,7 +203,10 @@ def cases(draw: Any, prop: str, tier: str) -> dict:
             elif kind == "td":
                 steps.append({"op": "td"})
             elif kind == "svc":
-                steps.append({"op": "svc"})
+                sv = {"op": "svc"}
+                if d.pct(40):
+                    sv["started_after"] = d.int(1, 3)  # the service calls task_status.started() only after k ticks
+                steps.append(sv)
             elif kind == "burst":
                 # (bursts above 50 overflow a default-sized signal queue: finding F9, fixed)
                 nb = d.weighted([(d.int(1, 8), 70), (d.int(40, 70 if quick else 130), 30)])
@@ -388,7 +391,7 @@ class Run:
             elif op == "svc":
                 mark = f"svc:{path}:{phase}:{si}"
 
-                async def service(mark: str = mark) -> None:
+                async def service_body(mark: str = mark) -> None:
                     run.svc_running.add(mark)
                     try:
                         await anyio.sleep_forever()
@@ -396,6 +399,15 @@ class Run:
                         run.svc_running.discard(mark)
                         run.td_ran.append(mark)
                         run.ev("teardown", mark)
+
+                if st_.get("started_after"):
+                    async def service(*, task_status: Any, mark: str = mark, delay: int = st_["started_after"]) -> None:
+                        await anyio.sleep(delay)  # the component is blocked in start_service_task() meanwhile
+                        task_status.started()
+                        await service_body(mark)
+                else:
+                    async def service(mark: str = mark) -> None:  # type: ignore[misc]
+                        await service_body(mark)
 
                 await start_service_task(service, mark)
                 self.td_registered.append(mark)
